@@ -45,13 +45,17 @@ B(k) == IF k < 0 THEN NoB ELSE Nb(k)
 (*  "class" : class C { let n: Digit; items: elem{..n..} }                  *)
 (*  "tmpl"  : T(n) = elem{..n..}; start = let k = Digit in T(k)             *)
 (*  "sep"   : Sep(elem, sep, options)                                       *)
-NamedForms == {"nn", "n_", "_n", "0n", "n3"}      \* {n} {n,} {,n} {0,n} {n,3}
+NamedForms == {"nn", "n_", "_n", "0n", "n3", "pp", "_p", "p_"}      \* {n} {n,} {,n} {0,n} {n,3} {`n-1`} {,`n-1`} {`n-1`,}
+NMinus1 == <<"py", <<"sub", <<"var", "n">>, 1>>>>
 NamedRep(x, f) ==
     CASE f = "nn" -> Rep(x, Nm("n"), Nm("n"))
       [] f = "n_" -> Rep(x, Nm("n"), NoB)
       [] f = "_n" -> Rep(x, NoB, Nm("n"))
       [] f = "0n" -> Rep(x, Nb(0), Nm("n"))
       [] f = "n3" -> Rep(x, Nm("n"), Nb(3))
+      [] f = "pp" -> Rep(x, NMinus1, NMinus1)
+      [] f = "_p" -> Rep(x, NoB, NMinus1)
+      [] f = "p_" -> Rep(x, NMinus1, NoB)
 
 VARIABLES kind, el, sp, lo, hi, nf, opts, ctx, done
 vars == <<kind, el, sp, lo, hi, nf, opts, ctx, done>>
